@@ -13,12 +13,12 @@ from ..core import CaseResult, jhash
 
 LEVEL = 'exploration'
 RULE = ('case = sequence of 8-40 operations (get, get_or_compute, forced, raising computer, damage: truncate to prefix {0,1,n/2,n-1}, '
-        'empty, garbage, well-formed-but-wrong JSON, delete, swap with another key\'s file) over 1-4 keys from a unicode alphabet on '
+        'empty, garbage, well-formed-but-wrong JSON (incl. the right key without a value member), delete, swap with another key\'s file) over 1-4 keys from a unicode alphabet on '
         'JsonCache(allow_nones both)/DataFrameCache/NumpyArrayCache/InMemoryCache and nested sub-caches; oracle = dictionary model, '
         'every computed value unique. non-trivial = sequence containing a hit after a store AND (a damage op followed by an access, or a '
         'sub-cache/other-key access between store and hit); distinct = hash(op sequence)')
 REQUIRED = ['ops', 'hits', 'computes', 'forced_replacements', 'get_absent', 'get_present', 'raising_computers', 'damage_then_access',
-            'truncations_recovered', 'swaps_reported', 'subcache_ops', 'roundtrips_checked', 'wrong_shape_json_recovered', 'held_values_rechecked', 'forced_with_equal_value_of_other_json_type', 'returned_values_mutated_by_caller', 'refused_none_results', 'ops_in_non_utf8_locale', 'hits_in_non_utf8_locale']
+            'truncations_recovered', 'swaps_reported', 'subcache_ops', 'roundtrips_checked', 'wrong_shape_json_recovered', 'json_entries_reduced_to_their_key', 'held_values_rechecked', 'forced_with_equal_value_of_other_json_type', 'returned_values_mutated_by_caller', 'refused_none_results', 'ops_in_non_utf8_locale', 'hits_in_non_utf8_locale']
 ASSUMPTIONS = ['a damaged file that still loads to exactly the stored value counts as intact',
                'swap (foreign-key file) is only applied to JsonCache, the only cache type that records the key',
                'which exception type reports a foreign-key file is not checked; InMemoryCache is used from one thread']
